@@ -28,7 +28,7 @@ var c01Cfgs = []c01Cfg{
 
 var c01Events = []string{
 	"conn H1", "conn H2", "conn C1", "conn C2",
-	"upd C1 -", "upd C1 H1", "upd C1 H1,H2", "upd C1 H1,C2", "upd C2 H1", "upd C2 H1,H2", "upd H1 -", "upd H1 C1",
+	"upd C1 -", "upd C1 H1", "upd C1 H1,H2", "upd C1 H1,C2", "upd C1 H1,C1,H2", "upd C2 H1", "upd C2 H1,H2", "upd H1 -", "upd H1 C1",
 	"tick 30s", "tick 90s", "tick 130s",
 	"link W1 C1", "link W1 C2", "link W1 H1", "link W2 H2", "link W2 C1",
 	"peer C1 1", "forged-upd C1", "forged-link W1 H2",
